@@ -47,10 +47,16 @@ def _block(src, start):
 class _Expr:
     """Tiny evaluator: integers, identifiers, + - * /, parentheses; unsigned truncating arithmetic."""
 
+    _cache = {}
+
     def __init__(self, text, env):
-        self.toks = re.findall(r"\d+|[A-Za-z_][\w.!]*|[-+*/()]", text)
-        if "".join(self.toks) != re.sub(r"\s+", "", text):
-            raise ExtractError("cannot tokenize expression %r" % text)
+        toks = _Expr._cache.get(text)
+        if toks is None:
+            toks = re.findall(r"\d+|[A-Za-z_][\w.!]*|[-+*/()]", text)
+            if "".join(toks) != re.sub(r"\s+", "", text):
+                raise ExtractError("cannot tokenize expression %r" % text)
+            _Expr._cache[text] = toks
+        self.toks = toks
         self.env = env
         self.i = 0
 
@@ -74,7 +80,15 @@ class _Expr:
         if t.isdigit():
             return int(t)
         if t in self.env:
-            return self.env[t]
+            v = self.env[t]
+            if callable(v):                      # a call f(<expr>) of an extracted pure function (e.g. quorum(n))
+                if self.eat() != "(":
+                    raise ExtractError("function %r used without a call" % t)
+                arg = self.sum()
+                if self.eat() != ")":
+                    raise ExtractError("missing ) after call of %r" % t)
+                return None if arg is None else v(arg)
+            return v
         raise ExtractError("unknown identifier %r in expression" % t)
 
     def prod(self):
@@ -112,6 +126,45 @@ class _Expr:
 
 def evaluate(text, env):
     return _Expr(text, env).value()
+
+
+def split_comparison(text):
+    """`<expr> OP <expr>` with exactly one top-level comparison operator -> (lhs, op, rhs)."""
+    depth, found = 0, []
+    i = 0
+    while i < len(text):
+        c = text[i]
+        if c == "(":
+            depth += 1
+        elif c == ")":
+            depth -= 1
+        elif depth == 0:
+            m = re.match(r"<=|>=|==|!=|<|>", text[i:])
+            if m:
+                found.append((i, m.group(0)))
+                i += len(m.group(0))
+                continue
+            if text.startswith("&&", i) or text.startswith("||", i):
+                raise ExtractError("compound condition %r" % text)
+        i += 1
+    if len(found) != 1:
+        raise ExtractError("not a single comparison: %r" % text)
+    pos, op = found[0]
+    return text[:pos].strip(), op, text[pos + len(op):].strip()
+
+
+_CMP = {"<": lambda a, b: a < b, "<=": lambda a, b: a <= b, ">": lambda a, b: a > b, ">=": lambda a, b: a >= b,
+        "==": lambda a, b: a == b, "!=": lambda a, b: a != b}
+
+
+def evaluate_comparison(parts, env):
+    """Truth value of a comparison of two unsigned expressions; None when an operand cannot be computed on chain
+    (underflow, division by zero: the call fails)."""
+    lhs, op, rhs = parts
+    a, b = evaluate(lhs, env), evaluate(rhs, env)
+    if a is None or b is None:
+        return None
+    return _CMP[op](a, b)
 
 
 # ------------------------------------------------------------------ Messages.sol
@@ -226,19 +279,38 @@ def extract_sol(path):
     if not rm:
         raise ExtractError("Messages.sol: quorum() has no return expression")
     qexpr, qvar = rm.group(1).strip(), qm.group(1)
-    um = re.search(r"if\s*\(\s*vm\.signatures\.length\s*(<=|<|>=|>)\s*quorum\(\s*guardianSet\.keys\.length\s*\)\s*\)\s*\{\s*return\s*\(\s*false", src)
-    if not um:
-        raise ExtractError("Messages.sol: quorum comparison in verifyVM not found")
-    rej_op = um.group(1)
-    accept = {"<": lambda s, q: not s < q, "<=": lambda s, q: not s <= q, ">": lambda s, q: not s > q, ">=": lambda s, q: not s >= q}[rej_op]
+    cond = None
+    for im in re.finditer(r"\bif\s*\(", src):
+        depth, j = 1, im.end()
+        while j < len(src) and depth:
+            depth += {"(": 1, ")": -1}.get(src[j], 0)
+            j += 1
+        if depth == 0 and re.match(r"\s*\{\s*return\s*\(\s*false\s*,\s*\"no quorum\"", src[j:]):
+            cond = src[im.end():j - 1].strip()
+            break
+    if cond is None:
+        raise ExtractError("Messages.sol: `if (<condition>) { return (false, \"no quorum\")` not found in verifyVM")
+    cparts = split_comparison(cond)
+
+    def quorum_fn(x, _e=qexpr, _v=qvar):
+        return evaluate(_e, {_v: x})
+
+    def accepts(sg, n, _p=cparts):
+        # the rejection condition over the signature count and the key count (calls of quorum() inlined)
+        r = evaluate_comparison(_p, {"vm.signatures.length": sg, "guardianSet.keys.length": n, "quorum": quorum_fn})
+        return r is False
+    try:
+        accepts(1, 1)
+    except ExtractError as e:
+        raise ExtractError("Messages.sol: cannot evaluate the quorum condition %r: %s" % (cond, e))
     return {
         "file": path, "program": "Messages.sol:parseVM",
         "header": named(hdr), "headerLen": hdr_len, "sig": named(sig), "sigWidth": sig_w, "body": named(bdy),
         "payloadOffset": bdy_len, "payloadToEnd": True, "hashOverBodyToEnd": True, "hashDouble": hash_double,
         "hashExpr": hexpr, "version": ver, "recIdPlus27": any(f["plus27"] for f in sig if f["src"] == "v"),
-        "quorumExpr": qexpr, "quorumUse": "reject if signatures %s quorum" % rej_op,
+        "quorumExpr": qexpr, "quorumUse": "reject if " + re.sub(r"\s+", "", cond),
         "quorum": [evaluate(qexpr, {qvar: n}) for n in range(256)],
-        "acceptsCount": lambda s, n, _e=qexpr, _v=qvar, _a=accept: (lambda q: q is not None and _a(s, q))(evaluate(_e, {_v: n})),
+        "acceptsCount": accepts,
     }
 
 
@@ -366,23 +438,28 @@ def extract_ral(path):
     gm = re.search(r"let\s+guardianSize\s*=", body)
     if not gm or "guardianSize" not in qexpr:
         raise ExtractError("governance.ral: quorumSize is not a function of guardianSize")
-    um = re.search(r"assert!\(\s*(quorumSize|signatureSize)\s*(<=|<|>=|>)\s*(quorumSize|signatureSize)\s*,", body)
-    if not um or um.group(1) == um.group(3):
-        raise ExtractError("governance.ral: quorum assertion not found")
-    op = um.group(2)
-    if um.group(1) == "quorumSize":          # quorum OP sigs
-        accept = {"<=": lambda s, q: q <= s, "<": lambda s, q: q < s, ">=": lambda s, q: q >= s, ">": lambda s, q: q > s}[op]
-    else:                                     # sigs OP quorum
-        accept = {"<=": lambda s, q: s <= q, "<": lambda s, q: s < q, ">=": lambda s, q: s >= q, ">": lambda s, q: s > q}[op]
+    um = re.search(r"assert!\(\s*([^,\n]+?)\s*,\s*ErrorCodes\.InvalidSignatureSize\s*\)", body)
+    if not um:
+        raise ExtractError("governance.ral: quorum assertion (ErrorCodes.InvalidSignatureSize) not found")
+    rcond = um.group(1).strip()
+    rparts = split_comparison(rcond)
+
+    def accepts(sg, n, _p=rparts, _e=qexpr):
+        r = evaluate_comparison(_p, {"signatureSize": sg, "guardianSize": n, "quorumSize": evaluate(_e, {"guardianSize": n})})
+        return r is True
+    try:
+        accepts(1, 1)
+    except ExtractError as e:
+        raise ExtractError("governance.ral: cannot evaluate the quorum assertion %r: %s" % (rcond, e))
     return {
         "file": path, "program": "governance.ral:parseAndVerifyVAA",
         "header": header, "headerLen": loop_start, "sig": sig, "sigWidth": loop_step,
         "bodyStartExpr": bstart_expr, "bodyStart": body_start,
         "loopStart": loop_start, "body": bfields, "payloadOffset": payload, "payloadToEnd": True, "hashOverBodyToEnd": True,
         "hashDouble": hash_double, "hashExpr": hexpr, "version": version, "ascendingIndices": asc, "recIdPlus27": True,
-        "quorumExpr": qexpr, "quorumUse": "assert %s %s %s" % (um.group(1), op, um.group(3)),
+        "quorumExpr": qexpr, "quorumUse": "assert " + re.sub(r"\s+", "", rcond),
         "quorum": [evaluate(qexpr, {"guardianSize": n}) for n in range(256)],
-        "acceptsCount": lambda s, n, _e=qexpr, _a=accept: (lambda q: q is not None and _a(s, q))(evaluate(_e, {"guardianSize": n})),
+        "acceptsCount": accepts,
     }
 
 
@@ -469,11 +546,11 @@ def compare_quorum(ext, qtable):
         diffs.append(("contract-quorum/%s/formula/first-n=%d" % (prog, bad[0]),
                       {"program": prog, "expr": ext["quorumExpr"], "differs_at": bad[:20],
                        "extracted": [ext["quorum"][n] for n in bad[:20]], "specification": [qtable[n] for n in bad[:20]]}))
-    badu = [(s, n) for n in range(1, 256) for s in (qtable[n] - 1, qtable[n], qtable[n] + 1) if 0 <= s <= 255
-            and ext["acceptsCount"](s, n) != (s >= qtable[n])]
+    # acceptance by signature count: the whole square n = 1..255 (guardians), s = 0..255 (signatures) against s >= Q(n)
+    badu = [(sg, n) for n in range(1, 256) for sg in range(256) if ext["acceptsCount"](sg, n) != (sg >= qtable[n])]
     if badu:
         diffs.append(("contract-quorum/%s/acceptance-rule/sigs=%d,n=%d" % (prog, badu[0][0], badu[0][1]),
-                      {"program": prog, "use": ext["quorumUse"], "differs_at": badu[:20]}))
+                      {"program": prog, "use": ext["quorumUse"], "pairs_differing": len(badu), "differs_at (sigs, n)": badu[:20]}))
     return diffs
 
 
